@@ -1,5 +1,6 @@
+import DriverOps.C15
 import DriverOps.Core
 open Lean
 namespace DriverOps
-def tables : List (String → Array Json → R (Option Json)) := [core]
+def tables : List (String → Array Json → R (Option Json)) := [c15, core]
 end DriverOps
